@@ -550,8 +550,12 @@ func c04widths(r *rand.Rand, n int, k *mon.Case) []float64 {
 		k.Class("widths:dominant")
 	case 3: // all distinct
 		base := val(mode)
+		step := 1 + r.IntN(30)
+		if n*step > 28000 {
+			step = 1
+		}
 		for i := range w {
-			w[i] = base + float64(i)*float64(1+r.IntN(30))
+			w[i] = base + float64((i*step)%28000)
 		}
 		k.Class("widths:distinct")
 	case 4: // narrow cluster: nominal is pushed to min+107 (> max-107)
